@@ -41,11 +41,23 @@ QueriesMatch(m, qs) == qs = <<>> \/ \E i \in 1..Len(qs) : QueryMatches(m, qs[i])
 
 ValLists == {<<>>} \cup {<<s>> : s \in StrSet} \cup {<<"a", "b">>, <<"10", "x1">>, <<"", "9">>}
 Terms == [op : Ops, vals : ValLists, invert : BOOLEAN]
+(* systematic multi-term rows over representative terms: every ordered pair inside one query (AND), every pair  *)
+(* as two queries (OR), and triples mixing inverted and plain terms - order matters to translations that carry  *)
+(* per-term state from one term to the next                                                                      *)
+RepTerms == {[op |-> "exists", vals |-> <<>>, invert |-> i] : i \in BOOLEAN}
+       \cup {[op |-> "equal", vals |-> <<"a">>, invert |-> i] : i \in BOOLEAN}
+       \cup {[op |-> "in", vals |-> <<"a", "b">>, invert |-> i] : i \in BOOLEAN}
+       \cup {[op |-> "ltnum", vals |-> <<"10">>, invert |-> i] : i \in BOOLEAN}
+       \cup {[op |-> "lte", vals |-> <<"3k">>, invert |-> i] : i \in BOOLEAN}
+PairRows == {<< <<a, b>> >> : a \in RepTerms, b \in RepTerms} \cup {<< <<a>>, <<b>> >> : a \in RepTerms, b \in RepTerms}
+TripleRows == {<< <<a, b, a>> >> : a \in {t \in RepTerms : t.invert}, b \in {t \in RepTerms : ~t.invert}}
+         \cup {<< <<a, b>>, <<b>> >> : a \in {t \in RepTerms : t.invert}, b \in {t \in RepTerms : ~t.invert}}
 (* multi-term rows: AND inside a query, OR across queries *)
 Combos == {<< <<[op |-> "exists", vals |-> <<>>, invert |-> FALSE], [op |-> "ltnum", vals |-> <<"10">>, invert |-> FALSE]>> >>,
            << <<[op |-> "equal", vals |-> <<"a">>, invert |-> FALSE]>>, <<[op |-> "equal", vals |-> <<"b">>, invert |-> FALSE]>> >>,
            << <<[op |-> "exists", vals |-> <<>>, invert |-> TRUE]>>, <<[op |-> "lte", vals |-> <<"3k">>, invert |-> TRUE], [op |-> "in", vals |-> <<"a", "b">>, invert |-> TRUE]>> >>,
            << <<>> >>, <<>>}
+          \cup PairRows \cup TripleRows
 
 (* algebra checked by TLC *)
 InversionDuality == \A m \in Maps, t \in Terms : Raw(m, t) # "nil" => TermMatches(m, [t EXCEPT !.invert = ~t.invert]) = ~TermMatches(m, t)
